@@ -90,7 +90,7 @@ PLAN["C17"] = dict(
 )
 PLAN["C16"] = dict(
     verus=dict(quick=["time"], thorough=["time"]),
-    kani=dict(quick=["time_nat", "time_unit_identity"], thorough=["time_nat", "time_unit_identity"]),
+    kani=dict(quick=["time_nat", "time_unit_identity", "time_calendar_bounded"], thorough=["time_nat", "time_unit_identity", "time_calendar_bounded"]),
     level="proof",
 )
 
@@ -224,7 +224,7 @@ DETAILS = {
                 note="the stateful map of ffill / bfill by the eager model (A-ITER, mapmodel.rs)", not_covered=["vabs / abs (the scalar clause is in C15)", "ffill_mask / bfill_mask with an arbitrary mask"], assumptions=["A-REAL", "A-ITER", "A-MONO", "A-EXTRACT", "A-TOOLS"]),
     "C14": dict(text=_V + ": vcut (label-count errors, unique enclosing interval, open bounds label every value, nulls get the null label) in three instantiations, from the extracted scan loop.  Kani (BOUNDED, sorted series of length <= 5) decides vsorted_unique_idx First / Last and vsorted_unique.",
                 note="run de-duplication is bounded only", not_covered=["unbounded argument for vsorted_unique*"], assumptions=["A-REAL", "A-ITER", "A-MONO", "A-EXTRACT", "A-TOOLS"]),
-    "C16": dict(text=_V + ": into_unit (floor law, NaT), NaT predicates, calendar conversions per unit, NaT absorption of the operators; Kani: NaT and unit-identity laws over the full i64 domain.",
+    "C16": dict(text=_V + ": into_unit (floor law, NaT), NaT predicates, calendar conversions per unit, NaT absorption of the operators; Kani: NaT and unit-identity laws over the full i64 domain; BOUNDED: ms / us calendar conversion read back with chrono's accessors on +-4096 units around the epoch.",
                 note="chrono by assumed contract (A-CHRONO)", not_covered=[], assumptions=["A-CHRONO", "A-EXTRACT", "A-TOOLS"]),
     "C17": dict(text=_V + ": Time +- duration, DateTime +- TimeDelta, date-time difference, duration_trunc (month-free and month blocks), TimeDelta neg / add / sub / mul, inverse-law lemmas; Kani: duration group / scaling laws, component round trip.",
                 note="A-CHRONO: month shift and calendar fields are chrono's (abstract); the inverse law is stated for durations that are whole units of the date-time's resolution",
